@@ -702,7 +702,7 @@ func (sl *SignalLayout) decodeStandardSignal(stdSig *StandardSignal, rawValue ui
 		if sigType.signed {
 			valueType = SignalValueTypeInt
 
-			if rawValue&(1<<sigType.size-1) != 0 {
+			if rawValue&(1<<(sigType.size-1)) != 0 {
 				// extend sign of raw value
 				rawValue |= (1<<64 - 1) << sigType.size
 			}
